@@ -63,18 +63,39 @@ template <class Base> struct ScriptShellT : Base {
 };
 typedef ScriptShellT<UtestShell> ScriptShell;
 typedef ScriptShellT<IgnoredUtestShell> IgnoredScriptShell;
+// one scripted check, passing or failing, through one member of the assert family (rotated by test, phase and statement so
+// that every member occurs at every crash point): each counts as exactly one check whether it passes or fails
+void scripted_check(UtestShell* cur, int which, bool pass, const char* file, size_t line, bool c_style) {
+    static const unsigned char b1[2] = {1, 2}, b2[2] = {1, 3};
+    const TestTerminator& T = c_style ? (const TestTerminator&)TestTerminatorWithoutExceptions() : (const TestTerminator&)NormalTestTerminator();
+    switch (which % 12) {
+    case 0: cur->assertTrue(pass, "CHECK", "scripted", NULLPTR, file, line, T); break;
+    case 1: cur->assertLongsEqual(1, pass ? 1 : 2, NULLPTR, file, line, T); break;
+    case 2: cur->assertUnsignedLongsEqual(1u, pass ? 1u : 2u, NULLPTR, file, line, T); break;
+    case 3: cur->assertCstrEqual("a", pass ? "a" : "b", NULLPTR, file, line, T); break;
+    case 4: cur->assertPointersEqual(b1, pass ? b1 : b2, NULLPTR, file, line, T); break;
+    case 5: cur->assertDoublesEqual(1.0, pass ? 1.0 : 2.0, 0.1, NULLPTR, file, line, T); break;
+    case 6: cur->assertEquals(!pass, "1", pass ? "1" : "2", NULLPTR, file, line, T); break;
+    case 7: cur->assertBinaryEqual(b1, pass ? b1 : b2, 2, NULLPTR, file, line, T); break;
+    case 8: cur->assertLongLongsEqual(1, pass ? 1 : 2, NULLPTR, file, line, T); break;
+    case 9: cur->assertCstrNEqual("ab", pass ? "ac" : "bc", 1, NULLPTR, file, line, T); break;
+    case 10: cur->assertBitsEqual(1, pass ? 1 : 2, 0xff, 1, NULLPTR, file, line, T); break;
+    case 11: if (pass) cur->assertSignedBytesEqual(1, 1, NULLPTR, file, line, T); else cur->fail("scripted FAIL", file, line, T); break;
+    }
+}
 void ScriptTest::phase(int ph) {
     if (ph == 0) g_exec[idx]++;
     int o = g_exec[idx] <= 1 ? g_spec[idx].kind[ph] : g_spec[idx].later[ph]; int t = idx;
     UtestShell* cur = UtestShell::getCurrent();
     for (int st = 1; st <= 2; st++) {
-        if ((o == CPP_S1 && st == 1) || (o == CPP_S2 && st == 2)) cur->assertTrue(false, "CHECK", "scripted", NULLPTR, "script.cpp", stmt_line(t, ph, st));
-        if ((o == C_S1 && st == 1) || (o == C_S2 && st == 2)) cur->assertTrue(false, "CHECK_C", "scripted", NULLPTR, "script.cpp", stmt_line(t, ph, st), TestTerminatorWithoutExceptions());
+        int which = t * 5 + ph * 3 + st + g_exec[idx];
+        if ((o == CPP_S1 && st == 1) || (o == CPP_S2 && st == 2)) scripted_check(cur, which, false, "script.cpp", stmt_line(t, ph, st), false);
+        if ((o == C_S1 && st == 1) || (o == C_S2 && st == 2)) scripted_check(cur, which, false, "script.cpp", stmt_line(t, ph, st), true);
 #if CPPUTEST_HAVE_EXCEPTIONS
         if (o == THROW_STD && st == 1) throw std::runtime_error("scripted std exception");
         if (o == THROW_INT && st == 1) throw 42;
 #endif
-        cur->assertTrue(true, "CHECK", "passing", NULLPTR, "script.cpp", stmt_line(t, ph, st));
+        scripted_check(cur, which + 7, true, "script.cpp", stmt_line(t, ph, st), false);
         tr(t, ph, st);
     }
 }
